@@ -1175,6 +1175,7 @@ func (ds *Dataset) ProcessChangesRaw(
 			if err != nil {
 				return err
 			}
+			verifhook.Point(ds.store.database, "ProcessChangesRaw.entry")
 
 			if limit > 0 && int(processed) == limit {
 				break
@@ -1186,6 +1187,7 @@ func (ds *Dataset) ProcessChangesRaw(
 	if err != nil {
 		return 0, err
 	}
+	verifhook.Point(ds.store.database, "ProcessChangesRaw.end")
 
 	// if we returned something then move ahead to next seq
 	if foundChanges {
